@@ -15,10 +15,13 @@ EXPLANATION = (
     "Cache-coherence rules over MultiFunction: every store to the method or preference table is followed, on every path to "
     "exit and inside the same lock, by a cache reset; the hierarchy-staleness test dominates the cache read and its stale edge "
     "leads through a reset; the cache is only (re)filled from the current method table; the hierarchy is held by reference and "
-    "the global derive/underive go through alter-var-root on that reference."
+    "the global derive/underive go through alter-var-root on that reference. The hierarchy itself: derive and underive are "
+    "evaluated abstractly over a free set algebra (singletons, opaque lookups, unions; assoc/fold terms over the three component "
+    "maps) and must equal the closure-update equations that keep ancestors = transitive closure of parents and descendants = its "
+    "inverse; the query functions read the component they are named after and isa? goes through ancestors."
 )
-DECIDES = "write=>reset pairing, staleness-check dominance, cache fill sources, hierarchy-by-reference"
-DECLINED = "uniqueness/ambiguity of the best match, consistency of parents/ancestors/descendants (set-valued computations)"
+DECIDES = "write=>reset pairing, staleness-check dominance, cache fill sources, hierarchy-by-reference, derive/underive update equations (consistency of parents/ancestors/descendants/isa?)"
+DECLINED = "uniqueness/ambiguity of the best match over concrete method tables (a set-valued computation on runtime values); class tags whose superclasses carry derived ancestors"
 TRUSTED = ["threading.Lock semantics", "persistent maps are values (C04)"]
 ASSUMPTIONS = []
 
@@ -203,7 +206,359 @@ def r4_hierarchy_by_reference(ctx):
             ctx.ob("C18.R4", f"{CORE}::{name}::{params.text()}", CORE, d.line, ok, "" if ok else f"the global arity of {name} does not update #'global-hierarchy through alter-var-root with (tag parent) in order")
 
 
+# ---------------------------------------------------------------------------------------------
+# R5 derive / underive keep :parents, :ancestors and :descendants mutually consistent
+
+
+class Undecided(Exception):
+    pass
+
+
+class Defect(Exception):
+    pass
+
+
+class _V:
+    """an already evaluated argument (threading macros)"""
+
+    def __init__(self, val):
+        self.val = val
+
+
+def _S(*parts, nilable=False):
+    return ("set", frozenset(parts), nilable)
+
+
+_EMPTY = _S()
+
+
+def _is_set(v):
+    return isinstance(v, tuple) and bool(v) and v[0] == "set"
+
+
+class SetAlgebra:
+    """Abstract evaluation of the hierarchy-update code over a free set algebra: set values are
+    finite unions of singletons {x} and opaque set atoms (map lookups defaulting to the empty set);
+    map values are assoc / dissoc / fold terms over the component maps of the hierarchy argument.
+    Anything outside that vocabulary is Undecided (an analysis error, not a verdict)."""
+
+    def __init__(self, hname):
+        self.h = hname
+        self.guards = []
+
+    def ev(self, f, env):
+        if isinstance(f, _V):
+            return f.val
+        if isinstance(f, L.Sym):
+            return env[f.val] if f.val in env else ("sym", f.val)
+        if isinstance(f, L.Kw):
+            return ("kw", f.text())
+        if isinstance(f, L.Set):
+            return _S(*[("one", self.ev(i, env)) for i in f.items])
+        if isinstance(f, L.Map):
+            return ("map", tuple(sorted((k.text(), self.ev(v, env)) for k, v in f.pairs())))
+        if isinstance(f, L.List) and f.items:
+            h = f.items[0]
+            if isinstance(h, L.Kw):
+                return self.call_kw(h.text(), [self.ev(a, env) for a in f.items[1:]])
+            if isinstance(h, L.Sym):
+                return self.call(h.val, list(f.items[1:]), env, f)
+        raise Undecided(f"cannot evaluate `{f.text()[:80]}` (line {f.line})")
+
+    def call_kw(self, k, args):
+        if len(args) == 1 and args[0] == ("sym", self.h):
+            return ("hmap", k)
+        raise Undecided(f"keyword lookup {k} on something other than the hierarchy argument")
+
+    def lookup(self, m, k, default):
+        if default is None:
+            return _S(("all", ("lookup", m, k)), nilable=True)
+        if default == _EMPTY:
+            return _S(("all", ("lookup", m, k)))
+        raise Undecided("a lookup default other than the empty set")
+
+    def as_set(self, v, what, allow_nil=False):
+        if not _is_set(v):
+            raise Undecided(f"{what} is not a set expression: {v!r}")
+        if v[2] and not allow_nil:
+            raise Defect(f"{what} may be nil: conj onto nil builds a list, not a set (a lookup lost its #{{}} default)")
+        return v
+
+    def call(self, name, args, env, form):
+        def ev(a):
+            return self.ev(a, env)
+        if name in ("let", "let*"):
+            env = dict(env)
+            for s, v in zip(args[0].items[0::2], args[0].items[1::2]):
+                if not isinstance(s, L.Sym):
+                    raise Undecided("destructuring in let")
+                env[s.val] = self.ev(v, env)
+            return self.body(args[1:], env)
+        if name == "do":
+            return self.body(args, env)
+        if name == "if" and len(args) == 3:
+            t = args[0]
+            tv = ("seq", ev(t.items[1])) if L.head(t) in ("seq", "not-empty") else ("opaque", t.text())
+            return ("if", tv, ev(args[1]), ev(args[2]))
+        if name == "get-in":
+            m, path = ev(args[0]), args[1]
+            if not (isinstance(path, L.Vec) and len(path.items) == 2):
+                raise Undecided("get-in path is not a two-element vector")
+            k1, k2 = ev(path.items[0]), ev(path.items[1])
+            if m != ("sym", self.h) or k1[0] != "kw":
+                raise Undecided("get-in on something other than the hierarchy argument")
+            return self.lookup(("hmap", k1[1]), k2, ev(args[2]) if len(args) > 2 else None)
+        if name == "get":
+            return self.lookup(ev(args[0]), ev(args[1]), ev(args[2]) if len(args) > 2 else None)
+        if name == "conj":
+            base = self.as_set(ev(args[0]), "the first argument of conj")
+            return _S(*base[1], *[("one", ev(a)) for a in args[1:]])
+        if name == "apply":
+            if not (isinstance(args[0], L.Sym) and args[0].val == "conj"):
+                raise Undecided("apply of something other than conj")
+            base = self.as_set(ev(args[1]), "the first argument of (apply conj ...)")
+            tail = self.as_set(ev(args[-1]), "the spread argument of apply", allow_nil=True)
+            return _S(*base[1], *[("one", ev(a)) for a in args[2:-1]], *tail[1])
+        if name == "into":
+            base = self.as_set(ev(args[0]), "the first argument of into")
+            tail = self.as_set(ev(args[1]), "the second argument of into", allow_nil=True)
+            return _S(*base[1], *tail[1])
+        if name == "set":
+            return _S(*self.as_set(ev(args[0]), "the argument of set", allow_nil=True)[1])
+        if name == "disj":
+            base = self.as_set(ev(args[0]), "the first argument of disj")
+            return ("minus", base, tuple(ev(a) for a in args[1:]))
+        if name == "assoc":
+            if len(args) != 3:
+                raise Undecided("assoc with several pairs")
+            return ("assoc", ev(args[0]), ev(args[1]), ev(args[2]))
+        if name == "dissoc":
+            return ("dissoc", ev(args[0]), ev(args[1]))
+        if name == "make-hierarchy" and not args:
+            return ("fresh",)
+        if name == "mapcat" and len(args) == 2:
+            return ("edges", ev(args[1]))
+        if name in ("->>", "->"):
+            val = ev(args[0])
+            for step in args[1:]:
+                if isinstance(step, L.List) and step.items and isinstance(step.items[0], L.Sym):
+                    rest = list(step.items[1:])
+                    val = self.call(step.items[0].val, rest + [_V(val)] if name == "->>" else [_V(val)] + rest, env, step)
+                elif isinstance(step, L.List) and step.items and isinstance(step.items[0], L.Kw):
+                    val = self.call_kw(step.items[0].text(), [val])
+                elif isinstance(step, L.Sym):
+                    val = self.call(step.val, [_V(val)], env, step)
+                elif isinstance(step, L.Kw):
+                    val = self.call_kw(step.text(), [val])
+                else:
+                    raise Undecided("threading step")
+            return val
+        if name == "as->":
+            val = ev(args[0])
+            for step in args[2:]:
+                val = self.ev(step, dict(env, **{args[1].val: val}))
+            return val
+        if name in ("reduce*", "reduce"):
+            if len(args) != 3:
+                raise Undecided("reduce without an initial value")
+            fn, init, coll = args
+            if not (isinstance(fn, L.List) and L.head(fn) in ("fn", "fn*") and isinstance(fn.items[1], L.Vec) and len(fn.items[1].items) == 2):
+                raise Undecided("reduce with something other than a two-parameter fn literal")
+            pa, px = (p.val for p in fn.items[1].items)
+            acc, x = ("sym", "$acc"), ("sym", "$x")
+            fbody = list(fn.items[2:])
+            if len(fbody) == 1 and L.head(fbody[0]) in ("derive",) and len(fbody[0].items) == 4 and L.is_sym(fbody[0].items[1], pa):
+                a1, a2 = fbody[0].items[2].text(), fbody[0].items[3].text()
+                if (a1, a2) != (f"(first {px})", f"(second {px})"):
+                    raise Defect(f"the rebuilding reduce at line {fn.line} re-derives ({a1}, {a2}) instead of (tag, parent) of each recorded edge")
+                return ("rebuild", self.ev(init, env), self.ev(coll, env))
+            body = self.body(fbody, dict(env, **{pa: acc, px: x}))
+            if not (isinstance(body, tuple) and body[0] == "assoc" and body[1] == acc and body[2] == x and _is_set(body[3])):
+                raise Undecided(f"the reducing function is not of the form (assoc acc x <set>): {body!r}")
+            own = ("all", ("lookup", acc, x))
+            parts = body[3][1]
+            if own not in parts:
+                raise Defect(f"the reducing function at line {fn.line} replaces the entry of each visited key instead of extending it (the members it already had are dropped)")
+            add = parts - {own}
+            if "$acc" in repr(add) or "$x" in repr(add):
+                raise Undecided("the added members depend on the accumulator")
+            it = self.as_set(self.ev(coll, env), "the collection reduced over")
+            return ("fold", self.ev(init, env), it[1], add)
+        if name in ("contains?", "="):
+            return ("test", name, tuple(self.ev(a, env) for a in args))
+        raise Undecided(f"unsupported operation `{name}` (line {form.line})")
+
+    def body(self, forms, env):
+        for f in forms[:-1]:
+            h = L.head(f)
+            if h in ("when", "when-not") and any(L.head(x) == "throw" for x in f.items[2:]):
+                try:
+                    t = self.ev(f.items[1], env)
+                except Undecided:
+                    t = ("opaque", f.items[1].text())
+                self.guards.append((h, t, f.line))
+            elif h is not None and h.startswith("-check"):
+                continue
+            else:
+                raise Undecided(f"statement with unknown effect: {f.text()[:60]}")
+        return self.ev(forms[-1], env)
+
+
+def _show(v) -> str:
+    if _is_set(v):
+        return _show_parts(v[1]) + ("?" if v[2] else "")
+    if isinstance(v, tuple) and v:
+        if v[0] == "sym":
+            return v[1]
+        if v[0] == "hmap":
+            return f"(h {v[1]})"
+        if v[0] == "lookup":
+            return f"{_show(v[1])}[{_show(v[2])}]"
+        if v[0] == "assoc":
+            return f"assoc({_show(v[1])}, {_show(v[2])}, {_show(v[3])})"
+        if v[0] == "fold":
+            return f"for x in {_show_parts(v[2])}: {_show(v[1])}[x] |= {_show_parts(v[3])}"
+    return repr(v)
+
+
+def _show_parts(parts) -> str:
+    return "{" + " + ".join(sorted((_show(p[1]) if p[0] == "one" else "*" + _show(p[1])) for p in parts)) + "}"
+
+
+@rule("C18.R5", floor=9)
+def r5_hierarchy_components_consistent(ctx):
+    """derive/underive, evaluated over a free set algebra, compute exactly the closure-update
+    equations.  With PA = ancestors[parent], D = descendants[tag]:
+        parents'     = parents[tag := parents[tag] + {parent}]
+        ancestors'   = for x in D + {tag}:      ancestors[x]   |= PA + {parent}
+        descendants' = for y in PA + {parent}:  descendants[y] |= D + {tag}
+    guarded by tag /= parent and tag not in PA.  These equations preserve the invariant
+    'ancestors = transitive closure of parents, descendants = its inverse' (the nodes whose closure
+    changes when the edge tag->parent is added are exactly tag and its descendants, and what they
+    gain is exactly parent and its ancestors; dually for descendants).  underive removes the edge
+    from :parents and rebuilds the other two components by re-deriving every remaining edge
+    from an empty hierarchy, so the invariant holds by construction.  The query functions read the
+    component they are named after and isa? goes through `ancestors`."""
+    defs = L.top_defs(ctx.lisp(CORE))
+    for nm in ("derive", "underive", "make-hierarchy", "ancestors", "descendants", "parents", "isa?"):
+        if nm not in defs:
+            raise AnalysisError(f"anchor vanished: core.lpy::{nm}")
+
+    def arity(name, n):
+        for params, body in L.fn_arities(defs[name]):
+            if len(params.items) == n and all(isinstance(p, L.Sym) for p in params.items):
+                return [p.val for p in params.items], list(body)
+        raise AnalysisError(f"anchor vanished: core.lpy::{name} arity {n}")
+
+    line = defs["derive"].line
+    (hn, tn, pn), body = arity("derive", 3)
+    tag, parent = ("sym", tn), ("sym", pn)
+    A, D, Pm = ("hmap", ":ancestors"), ("hmap", ":descendants"), ("hmap", ":parents")
+    PA = ("all", ("lookup", A, parent))
+    DS = ("all", ("lookup", D, tag))
+    spec = {
+        ":parents": ("assoc", Pm, tag, _S(("all", ("lookup", Pm, tag)), ("one", parent))),
+        ":ancestors": ("fold", A, frozenset({DS, ("one", tag)}), frozenset({PA, ("one", parent)})),
+        ":descendants": ("fold", D, frozenset({PA, ("one", parent)}), frozenset({DS, ("one", tag)})),
+    }
+    sa = SetAlgebra(hn)
+    try:
+        res = sa.body(body, {})
+    except Defect as e:
+        res = None
+        ctx.ob("C18.R5", f"{CORE}::derive::component updates", CORE, line, False, str(e), witness="(derive (derive (make-hierarchy) ::a ::b) ::b ::c), then (ancestors h ::a)")
+    except Undecided as e:
+        raise AnalysisError(f"C18.R5 cannot evaluate derive over the set algebra: {e}")
+    if res is not None:
+        if not (isinstance(res, tuple) and res[0] == "map"):
+            raise AnalysisError("C18.R5: derive does not end in a map literal")
+        got = dict(res[1])
+        ok = set(got) == set(spec)
+        ctx.ob("C18.R5", f"{CORE}::derive::returns exactly the components {sorted(spec)}", CORE, line, ok,
+               "" if ok else f"derive returns the components {sorted(got)}: a component of the hierarchy is dropped or misnamed")
+        for k in sorted(spec):
+            if k not in got:
+                continue
+            ok = got[k] == spec[k]
+            ctx.ob("C18.R5", f"{CORE}::derive::{k} update equation", CORE, line, ok,
+                   "" if ok else f"derive computes {k} as `{_show(got[k])}` but consistency of parents/ancestors/descendants needs `{_show(spec[k])}`",
+                   witness="derive a chain ::a < ::b < ::c in either order and compare (ancestors ::a), (descendants ::c), (isa? ::a ::c)")
+        tests = [(h, t) for h, t, _ in sa.guards]
+        ok = ("when", ("test", "=", (tag, parent))) in tests or ("when", ("test", "=", (parent, tag))) in tests
+        ctx.ob("C18.R5", f"{CORE}::derive::rejects tag = parent", CORE, line, ok, "" if ok else "a tag can be derived from itself")
+        ok = ("when", ("test", "contains?", (_S(PA), tag))) in tests
+        ctx.ob("C18.R5", f"{CORE}::derive::rejects a cycle (tag among the ancestors of parent)", CORE, line, ok,
+               "" if ok else "cyclic derivations are no longer rejected: ancestors and descendants stop being a strict order")
+
+    # underive
+    line = defs["underive"].line
+    (hn, tn, pn), body = arity("underive", 3)
+    tag, parent = ("sym", tn), ("sym", pn)
+    sa = SetAlgebra(hn)
+    try:
+        res = sa.body(body, {})
+    except Defect as e:
+        res = None
+        ctx.ob("C18.R5", f"{CORE}::underive::rebuild", CORE, line, False, str(e))
+    except Undecided as e:
+        raise AnalysisError(f"C18.R5 cannot evaluate underive over the set algebra: {e}")
+    if res is not None:
+        TP = ("minus", _S(("all", ("lookup", Pm, tag))), (parent,))
+        keep = ("assoc", Pm, tag, TP)
+        drop = ("dissoc", Pm, tag)
+        ok_np = False
+        np_ = res[2][1] if (isinstance(res, tuple) and res[0] == "rebuild" and isinstance(res[2], tuple) and res[2][0] == "edges") else None
+        if np_ == keep:
+            ok_np = True
+        elif isinstance(np_, tuple) and np_[0] == "if" and np_[1] == ("seq", TP) and np_[2] == keep and np_[3] in (drop, keep):
+            ok_np = True
+        ok = isinstance(res, tuple) and res[0] == "rebuild" and res[1] == ("fresh",)
+        ctx.ob("C18.R5", f"{CORE}::underive::rebuilds ancestors/descendants from an empty hierarchy", CORE, line, ok,
+               "" if ok else "underive does not rebuild the derived components from (make-hierarchy): stale ancestors/descendants survive the removed edge",
+               witness="(-> (make-hierarchy) (derive ::a ::b) (derive ::b ::c) (underive ::a ::b)) then (ancestors h ::a)")
+        ctx.ob("C18.R5", f"{CORE}::underive::re-derives the recorded edges minus (tag, parent)", CORE, line, ok_np,
+               "" if ok_np else f"the edge set that underive re-derives is not `parents` with parent removed from parents[tag]: got {np_!r}")
+
+    # the query functions read the component they are named after; isa? goes through ancestors
+    for fname, comp in (("ancestors", ":ancestors"), ("descendants", ":descendants"), ("parents", ":parents")):
+        (hn, tn), body = arity(fname, 2)
+        gets = [f for b in body for f in L.walk(b) if L.head(f) == "get-in"]
+        ok = bool(gets) and all(len(g.items) >= 3 and L.is_sym(g.items[1], hn) and g.items[2].text() == f"[{comp} {tn}]" for g in gets)
+        ctx.ob("C18.R5", f"{CORE}::{fname}::reads h[{comp}][tag]", CORE, defs[fname].line, ok,
+               "" if ok else f"{fname} does not read the {comp} component for its tag")
+    (hn, tn, pn), body = arity("isa?", 3)
+    txt = " ".join(b.text() for b in body)
+    ok = f"(contains? (ancestors {hn} {tn}) {pn})" in txt and f"(= {tn} {pn})" in txt
+    ctx.ob("C18.R5", f"{CORE}::isa?::equality or membership in (ancestors h tag)", CORE, defs["isa?"].line, ok,
+           "" if ok else "isa? no longer decides by equality or membership of parent in (ancestors h tag)")
+    mh = defs["make-hierarchy"]
+    maps = [f for f in L.walk(mh) if isinstance(f, L.Map)]
+    ok = any(sorted(k.text() for k, _ in m.pairs()) == [":ancestors", ":descendants", ":parents"] and all(v.text() == "{}" for _, v in m.pairs()) for m in maps)
+    ctx.ob("C18.R5", f"{CORE}::make-hierarchy::three empty components", CORE, mh.line, ok, "" if ok else "make-hierarchy does not start from three empty maps")
+
+
 SELFTEST = [
+    {"name": "derive forgets the parent itself among the ancestors' descendants", "file": CORE, "expect": "C18.R5",
+     "old": "                            (:descendants h)\n                            (conj parent-ancestors parent))})))", "new": "                            (:descendants h)\n                            parent-ancestors)})))"},
+    {"name": "derive updates only tag, not its descendants", "file": CORE, "expect": "C18.R5",
+     "old": "                            (:ancestors h)\n                            (conj cur-descendants tag))", "new": "                            (:ancestors h)\n                            #{tag})"},
+    {"name": "derive replaces instead of extending", "file": CORE, "expect": "C18.R5",
+     "old": "                              (->> (get ancestors descendant)\n                                   (apply conj parent-ancestors parent)\n                                   (set)\n                                   (assoc ancestors descendant)))",
+     "new": "                              (->> (conj parent-ancestors parent)\n                                   (assoc ancestors descendant)))"},
+    {"name": "parents lookup loses its default", "file": CORE, "expect": "C18.R5",
+     "old": "     {:parents     (as-> (get-in h [:parents tag] #{}) $", "new": "     {:parents     (as-> (get-in h [:parents tag]) $"},
+    {"name": "cycle check dropped", "file": CORE, "expect": "C18.R5",
+     "old": "     (when (contains? parent-ancestors tag)\n", "new": "     (when (contains? cur-descendants tag)\n"},
+    {"name": "underive keeps the old closure", "file": CORE, "expect": "C18.R5",
+     "old": "                     (derive h (first pair) (second pair)))\n                   (make-hierarchy))))))", "new": "                     (derive h (first pair) (second pair)))\n                   (assoc h :parents new-parents))))))"},
+    {"name": "descendants reads the wrong component", "file": CORE, "expect": "C18.R5",
+     "old": "    (let [hierarchy-ancestors (get-in h [:descendants tag] #{})]", "new": "    (let [hierarchy-ancestors (get-in h [:ancestors tag] #{})]"},
+    {"name": "twin: derive written with into", "file": CORE, "expect": None,
+     "old": "                              (->> (get ancestors descendant)\n                                   (apply conj parent-ancestors parent)\n                                   (set)\n                                   (assoc ancestors descendant)))",
+     "new": "                              (assoc ancestors descendant\n                                     (into (conj parent-ancestors parent) (get ancestors descendant))))"},
+    {"name": "twin: underive always keeps the (possibly empty) parent set", "file": CORE, "expect": None,
+     "old": "         new-parents (if (seq tag-parents)\n                       (assoc (:parents h) tag tag-parents)\n                       (dissoc (:parents h) tag))]",
+     "new": "         new-parents (assoc (:parents h) tag tag-parents)]"},
     {"name": "prefer_method forgets reset", "file": MF, "expect": "C18.R1",
      "old": "            self._prefers = self._prefers.assoc(preferred_key, existing.cons(other_key))\n            self._reset_cache()\n",
      "new": "            self._prefers = self._prefers.assoc(preferred_key, existing.cons(other_key))\n"},
